@@ -14,7 +14,7 @@
 //	    scripted histories (known findings, boundary object states, the walk over
 //	    the validation rules), round-tripped the same way; "list" / "all" = the
 //	    registered set, "pending" = scenarios of refusals not recorded as findings
-//	    yet (they run only when named).
+//	    yet (they run only when named; none at present).
 //
 // Trace lines (ReplicaTrace style, validated by GenesisTrace.tla):
 //
